@@ -289,6 +289,8 @@ package security
 // authOKCount / authOKMethod are ghosts defined by performAuthentication's assumed contract: the number of method
 // handshakes that completed successfully on this connection and the last such method.
 //@ ghost var authOKCount int
+//@ ghost var authFailCount int
+//@ ghost var authLastFailed string
 //@ ghost var authOKMethod string
 
 //@ func (*Authenticator).performAuthentication (a, ctx, method, negotiation) (err)
@@ -300,6 +302,7 @@ package security
 //@   nocall [C19] caller_context_threaded3: context.TODO
 //@   preserves security.SecurityConfig security.Authenticator elems$security.AuthMethod
 //@   ensures counted: authOKCount == old(authOKCount) + ite(err == nil, 1, 0)
+//@   ensures failures_counted: authFailCount == old(authFailCount) + ite(err == nil, 0, 1) && (err != nil ==> authLastFailed == method) && (err == nil ==> authLastFailed == old(authLastFailed))
 //@   ensures which: err == nil ==> authOKMethod == method
 //@   ensures flags_kept: negotiation.Authentication == old(negotiation.Authentication) && negotiation.Encryption == old(negotiation.Encryption) && negotiation.NegotiatedCrypto == old(negotiation.NegotiatedCrypto) && negotiation.ClientConfig == old(negotiation.ClientConfig) && negotiation.ServerConfig == old(negotiation.ServerConfig) && negotiation.IsClient == old(negotiation.IsClient) && negotiation.SessionResumed == old(negotiation.SessionResumed)
 //@   ensures no_key_installed: a.stream.gcm == old(a.stream.gcm)
@@ -314,8 +317,13 @@ package security
 //@   ensures no_key_installed: a.stream.gcm == old(a.stream.gcm)
 //@   preserves security.SecurityConfig security.Authenticator security.SecurityNegotiation elems$security.AuthMethod G$authOK
 
+//@ func authMethodToBitmask (method) (result)
+//@   trusted
+//@   pure
+//@   deterministic
+
 //@ func (*Authenticator).handleClientAuthentication (a, ctx, negotiation) (err)
-//@   props C03
+//@   props C03 C10
 //@   nocall [C19] caller_context_threaded: context.Background
 //@   nocall [C19] caller_context_threaded2: context.WithoutCancel
 //@   nocall [C19] caller_context_threaded3: context.TODO
@@ -325,6 +333,7 @@ package security
 //@   loop 5 invariant none_yet: authOKCount == old(authOKCount) && a.stream != nil
 //@   loop 5 invariant kept: negotiation.Encryption == old(negotiation.Encryption) && negotiation.NegotiatedCrypto == old(negotiation.NegotiatedCrypto) && negotiation.ClientConfig == old(negotiation.ClientConfig) && negotiation.ServerConfig == old(negotiation.ServerConfig) && negotiation.IsClient == old(negotiation.IsClient) && negotiation.SessionResumed == old(negotiation.SessionResumed) && a.stream.gcm == old(a.stream.gcm)
 //@   assert before call performAuthentication #1 offered_only: (serverResponse &^ availableBitmask) == 0
+//@   loop 5 invariant failed_method_not_offered_again: [C10] authFailCount > old(authFailCount) ==> (availableBitmask & authMethodToBitmask(authLastFailed)) == 0
 //@   ensures negotiation_kept: negotiation.Encryption == old(negotiation.Encryption) && negotiation.NegotiatedCrypto == old(negotiation.NegotiatedCrypto) && negotiation.ClientConfig == old(negotiation.ClientConfig) && negotiation.ServerConfig == old(negotiation.ServerConfig) && negotiation.IsClient == old(negotiation.IsClient) && negotiation.SessionResumed == old(negotiation.SessionResumed)
 //@   ensures no_key_installed: a.stream.gcm == old(a.stream.gcm)
 //@   let answer = old(negotiation.ServerConfig.Authentication)
